@@ -495,18 +495,18 @@ def client_h1(wire, head_req):
         sl = lines[0]
         if not (len(sl) >= 13 and sl[:7] == b"HTTP/1." and sl[7:8] in (b"0", b"1") and sl[8:9] == b" "
                 and sl[9:12].isdigit() and sl[12:13] == b" "):
-            return dict(ok=False, why="client status line %r" % sl[:40])
+            return dict(ok=False, why="status line")
         status = int(sl[9:12])
         fields = []
         for l in lines[1:]:
             if b":" not in l:
-                return dict(ok=False, why="client field line without colon %r" % l[:40])
+                return dict(ok=False, why="field line without colon")
             k, v = l.split(b":", 1)
             if not k or any(c not in TOKEN for c in k):
-                return dict(ok=False, why="client field name %r" % k[:40], fieldsyntax=True)
+                return dict(ok=False, why="field name is not a token", fieldsyntax=True)
             v = v.strip(b" \t")
             if b"\r" in v or b"\n" in v or b"\x00" in v:
-                return dict(ok=False, why="client field value with CR/LF/NUL %r" % v[:40], fieldsyntax=True)
+                return dict(ok=False, why="field value contains CR, LF or NUL", fieldsyntax=True)
             fields.append((k, v))
         pos = e + 4
         if 100 <= status < 200 and status != 101:
@@ -523,17 +523,17 @@ def client_h1(wire, head_req):
         r.update(framing="none", body=b"", complete=True, excess=len(after))
     elif te:
         if len(te) != 1 or te[0].lower() != b"chunked" or cl or sl[5:8] != b"1.1":
-            return dict(ok=False, why="client framing fields: TE=%r CL=%r" % (te, cl))
+            return dict(ok=False, why="contradictory framing fields (Transfer-Encoding / Content-Length / version)")
         d = ref_dechunk(after)
         if d[0] == "bad":
-            return dict(ok=False, why="client chunked framing invalid", chunksyntax=True)
+            return dict(ok=False, why="chunked framing invalid", chunksyntax=True)
         r.update(framing="chunked", body=d[1], complete=d[0] == "ok")
         if d[0] == "ok":
             r["trailers"] = d[2]
             r["excess"] = len(after) - d[3]
     elif cl:
         if len(cl) != 1 or not cl[0].isdigit():
-            return dict(ok=False, why="client Content-Length %r" % cl, clsyntax=True)
+            return dict(ok=False, why="Content-Length is not a number", clsyntax=True)
         n = int(cl[0])
         r.update(framing="cl", clen=n, body=after[:n], complete=len(after) >= n, excess=max(0, len(after) - n))
     else:
@@ -915,7 +915,7 @@ def gen_fcgi(ctx):
         for segs in split_region(recs, lo, lo + width):
             lines.append("fcgi %s" % " ".join(C.hx(s) for s in segs))
     # record size limits
-    for n_ in (65535, 65534, 32768):
+    for n_ in (65535, 65534, 32768, 256, 255):
         for pad in (0, 255):
             lines.append("fcgi %s" % C.hx(fcgi_rec(6, b"z" * n_, pad) + fcgi_rec(3, b"\0" * 8)))
     return lines
@@ -951,10 +951,13 @@ def run(ctx):
     if exe is None:
         ctx.broken.append({"kind": "harness-build", "names": ["h_beresp"], "log": err[-3000:]})
         return
-    ctx.differential("relay-random(h_beresp)", [exe], "beresp", gen_relay(ctx), oracle, classify)
+    rl = gen_relay(ctx)
     ex = gen_exhaustive(ctx)
-    ctx.differential("relay-exhaustive-splits-and-cuts(h_beresp)", [exe], "beresp", ex, oracle, classify)
-    ctx.differential("relay-large-bodies(h_beresp)", [exe], "beresp", gen_big(ctx), oracle, classify)
+    big = gen_big(ctx)
+    ctx.dist["relay:random"] = len(rl)
+    ctx.dist["relay:exhaustive-splits-and-cuts"] = len(ex)
+    ctx.dist["relay:large-bodies"] = len(big)
+    ctx.differential("relay(h_beresp)", [exe], "beresp", rl + ex + big, oracle, classify)
     ctx.differential("backend-dechunk(h_beresp)", [exe], "beresp", gen_dechunk(ctx), oracle, classify)
     ctx.differential("fastcgi-records(h_beresp)", [exe], "beresp", gen_fcgi(ctx), oracle, classify)
     ctx.exhaustive = ("every composition into segments of the head/body boundary, the first and the last "
